@@ -165,7 +165,7 @@ fn rand_tz_string(rng: &mut Rng) -> String {
 
 pub fn run(ctx: &Ctx) -> Report {
     let mut rep = Report::new("C10");
-    rep.rule = "cases = events (file, instant) -> (utoff, isdst, abbreviation, civil fields) and (file, local time) -> found instants recorded from tz-rs and replayed offline against CPython zoneinfo (posix tree) and glibc localtime (posix and right trees) reading the same vendored tzdata 2025b files: every transition -1/0/+1, 300 (thorough: 3000) random instants 1900-2500, far-future instants governed by the footer, local times within 3 h of every transition since 1970 (15-minute steps and the exact boundaries); the footer rule's transitions in 2 (quick) / 40 (thorough) random years of 2038-2400 per file, located by bisection, with the instants -1/0/+1 and the local times around them; \
+    rep.rule = "cases = events (file, instant) -> (utoff, isdst, abbreviation, civil fields) and (file, local time) -> found instants recorded from tz-rs and replayed offline against CPython zoneinfo (posix tree) and glibc localtime (posix and right trees) reading the same vendored tzdata 2025b files: every transition -1/0/+1, 300 (thorough: 3000) random instants 1900-2500, far-future instants governed by the footer, every path of the index (1243) is loaded and compared at the first use of each local time type + 3 instants, whatever the tier; local times within 3 h of every transition since 1970 (15-minute steps and the exact boundaries); the footer rule's transitions in 2 (quick) / 40 (thorough) random years of 2038-2400 per file, located by bisection, with the instants -1/0/+1 and the local times around them; \
                 plus TZ descriptions (IANA footers and random well-formed ones on the sub-language where glibc is authoritative) x 30 instants against glibc's TZ-environment parser. distinct_nontrivial = distinct events recorded."
         .into();
     let dir = match ctx.opts.get("events") {
@@ -258,7 +258,7 @@ pub fn run(ctx: &Ctx) -> Report {
         for _ in 0..ctx.inner(if ctx.quick() { 60 } else { 600 }) {
             emit_fwd(&mut out, l, hash, path, &tz, &leaps, rng.range(4_102_444_800, 16_725_225_600), "far_future");
         }
-        // mktime: local times within 3 h of every transition since 1970
+        // mktime: every path of the index (1243) is loaded and compared at the first use of each local time type + 3 instants, whatever the tier; local times within 3 h of every transition since 1970
         let offsets = zs.offsets();
         let mut nfind = 0;
         for &(t, _) in &zs.transitions {
@@ -346,6 +346,46 @@ pub fn run(ctx: &Ctx) -> Report {
             l.sample(|| Json::obj().set("file", path.clone()).set("transitions", zs.transitions.len()).set("find_events", nfind));
         }
         l.distinct_enumerated += l.evaluations - evals_before;
+    });
+    // every path of the index, whatever the tier: the file must load, and one instant per era of the file (each
+    // local time type is shown at least once when the table allows it) is compared with the references - catches
+    // anything specific to one file of the database (designation tables, versions, footers)
+    let all: Vec<(String, usize, String)> = paths.iter().enumerate().map(|(k, (p, b))| (p.clone(), *b, hashes[k].1.clone())).collect();
+    let stride_all = if ctx.scale < 1.0 { (1.0 / ctx.scale).ceil() as usize } else { 1 };
+    run_enum(ctx, &mut rep, 3, all.len() as u64, |l, rng, i| {
+        if i as usize % stride_all != 0 && ctx.scale < 1.0 {
+            return;
+        }
+        let (path, b, hash) = &all[i as usize];
+        let bytes = &blobs[*b];
+        let tz = match TimeZone::from_tz_data(bytes) {
+            Ok(z) => z,
+            Err(e) => {
+                l.violation("end-to-end: a file of the IANA database is refused", path.clone(), "Ok".into(), format!("{:?}", facade::tz_err(&e)));
+                l.evaluations += 1;
+                return;
+            }
+        };
+        let zs = ZoneSpec::from_tz(&tz.as_ref());
+        let leaps = zs.leaps.clone();
+        let mut out = String::new();
+        // first transition into each local time type (its designation is then rendered by both references)
+        let mut seen: Vec<usize> = vec![];
+        for &(t, k) in &zs.transitions {
+            if !seen.contains(&k) {
+                seen.push(k);
+                let x = leaps.switch(t);
+                if x > i64::MIN as i128 + 2 && x < i64::MAX as i128 - 2 {
+                    emit_fwd(&mut out, l, hash, path, &tz, &leaps, x as i64 + 1, "first_use_of_a_type");
+                }
+            }
+        }
+        for u in [rng.range(-2_208_988_800, 2_000_000_000), 1_750_000_000, rng.range(2_200_000_000, 8_000_000_000)] {
+            emit_fwd(&mut out, l, hash, path, &tz, &leaps, u, "every_file");
+        }
+        l.class("every_file_of_the_index_loaded");
+        let _ = std::fs::write(format!("{}/all-{:05}.jsonl", dir, i), out);
+        l.distinct_enumerated += 1;
     });
     // TZ descriptions vs glibc's TZ-environment parser
     let nstr = ctx.n(2000, 20_000);
